@@ -339,6 +339,22 @@ def rule_bounds(ck):
                                       cfg.dominates(cfg.node_of(a_), cfg.stmt_node_containing(x.value)) for a_ in comp)]
     (o.fail('a return of get_cell_area is not preceded by the computation on every path: the stored array is handed out again as it is') if (bad or not comp)
      else o.ok('the computation dominates every return'))
+    # the area of a cell is zero only for a degenerate cell: the shortcut is taken on exact equality of two corner coordinates, not on
+    # closeness (numpy.isclose allows 1e-5 of the value - 1.8e-3 degrees at lon 180 - which is wider than a zoom-18 tile)
+    ga = P.funcs.get(R + 'geographical_area_from_bounds')
+    if ga is not None:
+        for r_ in returns(ga):
+            if r_.value is not None and const_value(r_.value) == 0:
+                o = ck.ob('C17-D4.areazero', ga, r_, r_)
+                bad = None
+                for t_, pol_ in guards_of(r_, ga.node):
+                    for x in ast.walk(t_):
+                        if isinstance(x, ast.Call):
+                            bad = bad or x
+                        if isinstance(x, ast.Compare) and not all(isinstance(op_, (ast.Eq, ast.NotEq)) for op_ in x.ops):
+                            bad = bad or x
+                (o.fail('the zero-area shortcut is taken on `%s`: cells narrower than that tolerance (fine tiles far from the origin) get area 0 and the '
+                        'areas no longer add up to the covered band' % u(bad)[:60]) if bad is not None else o.ok('exact equality of two corners'))
     b = P.func(Q + 'get_bbox')
     r = [x for x in returns(b) if x.value is not None]
     o = ck.ob('C17-D4.bbox', b, r[0].value if r else 'bbox', r[0] if r else b.node)
@@ -396,4 +412,12 @@ def rule_precision(ck):
     rule_double_precision(ck, 'C17-D4.double', modules=('csep.core.regions',), what='tile bounds and coordinates')
 
 
-RULES = [rule_ownership, rule_children, rule_split, rule_bounds, rule_precision]
+def rule_rows_belong_to_keys(ck):
+    """row i of `bounds` (hence polygon i and area i) belongs to `quadkeys[i]`: the constructors hand the keys on in the order they were
+    given - no sorting / de-duplication between the key list and the bounds computed from it (shared C20-D3.keeporder)"""
+    from . import c20
+    ck.clause('D4 (shared C20-D3.keeporder: bounds are computed from the keys in the order they are stored)')
+    c20.rule_keeporder(ck)
+
+
+RULES = [rule_ownership, rule_children, rule_split, rule_bounds, rule_precision, rule_rows_belong_to_keys]
